@@ -43,13 +43,25 @@ func c02LibRepeat(in *c02Input, root string, n int, tools bool) (outs []string, 
 	for _, p := range in.Lint {
 		paths = append(paths, filepath.Join(root, p))
 	}
+	var reused *actionlint.Linter
 	for i := 0; i < n; i++ {
 		opts := actionlint.LinterOptions{WorkingDir: root}
 		if tools {
 			opts.Shellcheck = filepath.Join(binDir(), "faketool")
 			opts.Pyflakes = filepath.Join(binDir(), "faketool")
 		}
-		l, err := actionlint.NewLinter(discard{}, &opts)
+		// the first half of the repetitions uses a fresh Linter each, the second half repeats the
+		// run on ONE Linter instance ("how many times the run is repeated")
+		var l *actionlint.Linter
+		var err error
+		if i >= n/2 && reused != nil {
+			l = reused
+		} else {
+			l, err = actionlint.NewLinter(discard{}, &opts)
+			if i >= n/2 {
+				reused = l
+			}
+		}
 		var s string
 		if err != nil {
 			s = "NEWLINTER: " + err.Error()
@@ -242,6 +254,33 @@ func c02TieInputs(r *Rand) []*c02Input {
 	}
 	add("format-placeholders", wf(c02WfHead+c02Job("j", "      - run: echo ${{ format('"+strings.Join(ph, " ")+"', 1) }}\n")))
 	add("format-unused-args", wf(c02WfHead+c02Job("j", "      - run: echo ${{ format('{0}', 1, 2, 3, 4, 5) }}\n")))
+
+	// workflow_dispatch inputs whose settings refer to each other (the inputs are held in a map and
+	// their expressions are checked while the map is walked)
+	{
+		var names []string
+		for i := 0; i < n+2; i++ {
+			names = append(names, fmt.Sprintf("in_%c%d", 'a'+rune(r.Intn(26)), i))
+		}
+		var b strings.Builder
+		b.WriteString("on:\n  workflow_dispatch:\n    inputs:\n")
+		for i, nm := range names {
+			o1, o2 := names[(i+1+r.Intn(len(names)-1))%len(names)], names[r.Intn(len(names))]
+			fmt.Fprintf(&b, "      %s:\n        description: see ${{ github.event.inputs.%s }} and ${{ inputs.%s }}\n", nm, o1, o2)
+			switch r.Intn(4) {
+			case 0:
+				fmt.Fprintf(&b, "        type: string\n        default: ${{ inputs.%s }}\n", o1)
+			case 1:
+				fmt.Fprintf(&b, "        type: choice\n        options: [dev, ops]\n        default: ${{ github.event.inputs.%s && 'dev' || 'ops' }}\n", o2)
+			case 2:
+				fmt.Fprintf(&b, "        type: boolean\n        default: false\n")
+			default:
+				fmt.Fprintf(&b, "        type: string\n        default: ${{ inputs.undefined_%d }}\n", i)
+			}
+		}
+		b.WriteString("jobs:\n" + c02Job("j", "      - run: echo ${{ inputs."+names[0]+" }} ${{ github.event.inputs."+names[1]+" }} ${{ inputs.nope }}\n"))
+		add("dispatch-inputs-cross-references", wf(b.String()))
+	}
 
 	// several missing required inputs of a bundled action / undefined inputs
 	keys := make([]string, 0, len(actionlint.PopularActions))
@@ -571,6 +610,11 @@ func c02CheckLibOpts(c *Case, in *c02Input, reps int, tag string, tools bool) {
 			outs[i] = strings.ReplaceAll(outs[i], root, "<root>")
 		}
 		site := c02SiteOf(outs[0], outs[1])
+		if strings.HasPrefix(in.Site, "false-tie:") && strings.HasPrefix(site, "order:") {
+			// the holder whose entries are reported in varying order names the defect more
+			// narrowly than the message class
+			site = "order:entries-of-" + strings.TrimPrefix(in.Site, "false-tie:") + "-at-one-reported-position"
+		}
 		c.Violation("C02:"+site, fmt.Sprintf("%d distinct outputs over %d repetitions of the same input (%s); %s", len(outs), reps, in.Site, c02Diff(outs[0], outs[1])),
 			map[string]interface{}{"input": in, "output_a": outs[0], "output_b": outs[1], "distinct_outputs": len(outs)})
 	}
@@ -645,6 +689,10 @@ func runC02(r *Run) {
 	}})
 	// external tools: steps alternating sh / bash / python whose (fake) tool output names the shell
 	// it was started for; diagnostics must not depend on scheduling of the process pool
+	fams = append(fams, &Family{Name: "non-ascii-false-ties", N: r.Q(6, 60) * len(c02FlowSites), Do: func(c *Case) {
+		site := c02FlowSites[c.Idx%len(c02FlowSites)]
+		c02CheckLib(c, c02FalseTieInput(c.R, site), reps, "false-tie")
+	}})
 	fams = append(fams, &Family{Name: "tools-mixed-shells", N: r.Q(8, 80), Par: 2, Do: func(c *Case) {
 		var b strings.Builder
 		b.WriteString("on: push\njobs:\n  j:\n    runs-on: ubuntu-latest\n    steps:\n")
@@ -786,4 +834,97 @@ func runC02(r *Run) {
 	if r.ReplayOf == nil && r.SetLen("tie_sites") < 8 {
 		r.Inconclusive(fmt.Sprintf("only %d tie sites produced a same-position tie", r.SetLen("tie_sites")))
 	}
+}
+
+// ---------------------------------------------------------------------------
+// false position ties: a node's column comes from the YAML parser (characters) while the offset of
+// an expression inside a scalar is added in bytes, so non-ASCII text before a placeholder moves its
+// report to the right - onto the column of a diagnostic of a LATER entry of the same flow mapping.
+// Entries of such mappings are often held in Go maps; the order of two diagnostics at one position
+// then must still not depend on the iteration order.
+
+type c02FlowSite struct {
+	Name      string
+	Before    string   // lines before the mapping line
+	Lead      string   // text of the mapping line up to '{'
+	After     string   // lines after the mapping line
+	Keys      []string // admissible entry names (nil: free names)
+	Pre, Post string   // around each quoted value
+	Files     map[string]string
+}
+
+var c02FlowSites = []c02FlowSite{
+	{Name: "workflow-env", Before: "on: push\n", Lead: "env: ", After: "jobs:\n  j:\n    runs-on: ubuntu-latest\n    steps:\n      - run: echo\n"},
+	{Name: "job-env", Before: "on: push\njobs:\n  j:\n    runs-on: ubuntu-latest\n", Lead: "    env: ", After: "    steps:\n      - run: echo\n"},
+	{Name: "step-env", Before: "on: push\njobs:\n  j:\n    runs-on: ubuntu-latest\n    steps:\n      - run: echo\n", Lead: "        env: "},
+	{Name: "container-env", Before: "on: push\njobs:\n  j:\n    runs-on: ubuntu-latest\n    container:\n      image: alpine\n", Lead: "      env: ", After: "    steps:\n      - run: echo\n"},
+	{Name: "service-env", Before: "on: push\njobs:\n  j:\n    runs-on: ubuntu-latest\n    services:\n      db:\n        image: alpine\n", Lead: "        env: ", After: "    steps:\n      - run: echo\n"},
+	{Name: "services", Before: "on: push\njobs:\n  j:\n    runs-on: ubuntu-latest\n", Lead: "    services: ", After: "    steps:\n      - run: echo\n", Pre: "{image: ", Post: "}"},
+	{Name: "step-with-popular-action", Before: "on: push\njobs:\n  j:\n    runs-on: ubuntu-latest\n    steps:\n      - uses: actions/checkout@v4\n", Lead: "        with: ", Keys: []string{"ref", "path", "token", "repository", "ssh-key", "fetch-depth", "submodules"}},
+	{Name: "step-with-local-action", Before: "on: push\njobs:\n  j:\n    runs-on: ubuntu-latest\n    steps:\n      - uses: ./act\n", Lead: "        with: ", Keys: []string{"a1", "a2", "a3", "a4", "a5", "a6"},
+		Files: map[string]string{"act/action.yml": "name: a\ndescription: d\ninputs:\n  a1:\n    description: x\n  a2:\n    description: x\n  a3:\n    description: x\n  a4:\n    description: x\n  a5:\n    description: x\n  a6:\n    description: x\nruns:\n  using: node20\n  main: index.js\n", "act/index.js": "\n"}},
+	{Name: "call-with", Before: "on: push\njobs:\n  c:\n    uses: ./.github/workflows/r.yml\n", Lead: "    with: ", Keys: []string{"a1", "a2", "a3", "a4", "a5", "a6"},
+		Files: map[string]string{".github/workflows/r.yml": "on:\n  workflow_call:\n    inputs:\n      a1:\n        type: string\n      a2:\n        type: string\n      a3:\n        type: string\n      a4:\n        type: string\n      a5:\n        type: string\n      a6:\n        type: string\njobs:\n  j:\n    runs-on: ubuntu-latest\n    steps:\n      - run: echo\n"}},
+	{Name: "call-secrets", Before: "on: push\njobs:\n  c:\n    uses: ./.github/workflows/r.yml\n", Lead: "    secrets: ", Keys: []string{"a1", "a2", "a3", "a4", "a5", "a6"},
+		Files: map[string]string{".github/workflows/r.yml": "on:\n  workflow_call:\n    secrets:\n      a1:\n      a2:\n      a3:\n      a4:\n      a5:\n      a6:\njobs:\n  j:\n    runs-on: ubuntu-latest\n    steps:\n      - run: echo\n"}},
+	{Name: "job-outputs", Before: "on: push\njobs:\n  j:\n    runs-on: ubuntu-latest\n", Lead: "    outputs: ", After: "    steps:\n      - run: echo\n"},
+	{Name: "matrix-rows", Before: "on: push\njobs:\n  j:\n    strategy:\n", Lead: "      matrix: ", After: "    runs-on: ubuntu-latest\n    steps:\n      - run: echo\n", Pre: "[", Post: "]"},
+	{Name: "matrix-include-entry", Before: "on: push\njobs:\n  j:\n    strategy:\n      matrix:\n        include:\n", Lead: "          - ", After: "    runs-on: ubuntu-latest\n    steps:\n      - run: echo\n"},
+	{Name: "dispatch-inputs", Before: "on:\n  workflow_dispatch:\n", Lead: "    inputs: ", After: "jobs:\n  j:\n    runs-on: ubuntu-latest\n    steps:\n      - run: echo\n", Pre: "{type: string, description: ", Post: "}"},
+	{Name: "dispatch-inputs-default", Before: "on:\n  workflow_dispatch:\n", Lead: "    inputs: ", After: "jobs:\n  j:\n    runs-on: ubuntu-latest\n    steps:\n      - run: echo\n", Pre: "{type: string, default: ", Post: "}"},
+	{Name: "call-event-inputs", Before: "on:\n  workflow_call:\n", Lead: "    inputs: ", After: "jobs:\n  j:\n    runs-on: ubuntu-latest\n    steps:\n      - run: echo\n", Pre: "{type: string, default: ", Post: "}"},
+	{Name: "call-event-outputs", Before: "on:\n  workflow_call:\n", Lead: "    outputs: ", After: "jobs:\n  j:\n    runs-on: ubuntu-latest\n    steps:\n      - run: echo\n", Pre: "{value: ", Post: "}"},
+	{Name: "call-event-secrets", Before: "on:\n  workflow_call:\n", Lead: "    secrets: ", After: "jobs:\n  j:\n    runs-on: ubuntu-latest\n    steps:\n      - run: echo\n", Pre: "{description: ", Post: "}"},
+	{Name: "jobs", Before: "on: push\n", Lead: "jobs: ", Pre: "{runs-on: ubuntu-latest, steps: [{run: echo}], name: ", Post: "}"},
+	{Name: "environment-and-concurrency-of-jobs", Before: "on: push\n", Lead: "jobs: ", Pre: "{runs-on: ubuntu-latest, steps: [{run: echo}], concurrency: ", Post: "}"},
+}
+
+var c02Fillers = []string{"é", "ü", "я", "日", "あ", "😀"}
+
+func c02FalseTieInput(r *Rand, site c02FlowSite) *c02Input {
+	k := r.Range(2, 5)
+	var keys []string
+	if site.Keys != nil {
+		p := r.Perm(len(site.Keys))
+		if k > len(site.Keys) {
+			k = len(site.Keys)
+		}
+		for _, i := range p[:k] {
+			keys = append(keys, site.Keys[i])
+		}
+	} else {
+		for i := 0; i < k; i++ {
+			keys = append(keys, fmt.Sprintf("%c%c%d", 'a'+rune(r.Intn(26)), 'a'+rune(r.Intn(26)), i))
+		}
+	}
+	// built from the right: the last entry has no filler, every other entry gets as many extra
+	// bytes as its variable is characters away from the last entry's variable
+	last := keys[k-1] + ": " + site.Pre + "\"${{ "
+	right := last // text from the start of the entries to the right up to the last variable
+	line := last + "zlast }}\"" + site.Post
+	for i := k - 2; i >= 0; i-- {
+		u := fmt.Sprintf("zv%d", i)
+		tail := u + " }}\"" + site.Post + ", "
+		dist := len([]rune(tail)) + len([]rune(right))
+		fill := c02Fillers[r.Intn(len(c02Fillers))]
+		extra := len(fill) - 1
+		var filler string
+		if r.Chance(1, 5) { // an entry without a tie in between
+			filler = "plain"
+		} else {
+			for dist%extra != 0 { // not reachable with this filler: pad the distance by ASCII text on the right
+				tail = u + " }}\"" + site.Post + strings.Repeat(" ", (extra-dist%extra)) + ", "
+				dist = len([]rune(tail)) + len([]rune(right))
+			}
+			filler = strings.Repeat(fill, dist/extra)
+		}
+		head := keys[i] + ": " + site.Pre + "\"" + filler + " ${{ "
+		line = head + tail + line
+		right = head + tail + right
+	}
+	files := map[string]string{".github/workflows/w.yml": site.Before + site.Lead + "{" + line + "}\n" + site.After}
+	for p, c := range site.Files {
+		files[p] = c
+	}
+	return &c02Input{Files: files, Lint: []string{".github/workflows/w.yml"}, Site: "false-tie:" + site.Name}
 }
